@@ -173,6 +173,24 @@ func (app *App) appendSubAppLists(appList map[string]*App, parent ...string) {
 	}
 }
 
+// mountedStack returns the routes a mounted sub-app contributes to the parent's stack of method index m.
+// The method is looked up by name, the two apps may be configured with different RequestMethods. For a method
+// the sub-app does not know, its middleware still applies, as it is registered for every method.
+func (app *App) mountedStack(subApp *App, m int) []*Route {
+	if sm := subApp.methodInt(app.config.RequestMethods[m]); sm != -1 {
+		return subApp.stack[sm]
+	}
+	var routes []*Route
+	if len(subApp.stack) > 0 {
+		for _, subAppRoute := range subApp.stack[0] {
+			if subAppRoute.use {
+				routes = append(routes, subAppRoute)
+			}
+		}
+	}
+	return routes
+}
+
 // processSubAppsRoutes adds routes of sub-apps recursively when the server is started
 func (app *App) processSubAppsRoutes() {
 	for prefix, subApp := range app.mountFields.appList {
@@ -206,11 +224,14 @@ func (app *App) processSubAppsRoutes() {
 				continue
 			}
 
+			// The sub-app's routes for this method: its method list may differ from the parent's
+			subAppStack := app.mountedStack(route.group.app, m)
+
 			// Create a slice to hold the sub-app's routes
-			subRoutes := make([]*Route, len(route.group.app.stack[m]))
+			subRoutes := make([]*Route, len(subAppStack))
 
 			// Iterate over the sub-app's routes
-			for j, subAppRoute := range route.group.app.stack[m] {
+			for j, subAppRoute := range subAppStack {
 				// Clone the sub-app's route
 				subAppRouteClone := app.copyRoute(subAppRoute)
 
